@@ -46,6 +46,12 @@ def _finish(pid, tier, seed, t0, outs, mc_stats, rule, assumptions, extra_cov=No
     # re-run each violating scenario once more before reporting (DESIGN 4.1)
     reported = 0
     for sc, t, v in violations[:20]:
+        if sc.get('recorded'):
+            path = runner.write_replay(pid, sc, t, v)
+            print('VIOLATION property=%s replay=%s clause=%s event=%d all=%s (recorded run of the repository test suite)'
+                  % (pid, path, v['clause'], v['at'], ','.join(v.get('also', []))))
+            reported += 1
+            continue
         t2 = runner._run_one(sc)
         v2, _ = tlc.validate([t2], jobs=1, open_kf=runner.open_kf_names())
         vv = v2[t2['id']]
@@ -358,6 +364,45 @@ def run_fault_property(pid, tier, seed, scale=1.0):
         'commit or rollback starts (C14 statement); one fault per execution'])
 
 
+def repo_test_traces(tag):
+    """Run the repository's own test suite under the recorder (harness/recorder.py) and return the
+    recorded API-level traces (code -> spec for client code nobody here wrote).  Returns (traces, info)."""
+    import subprocess
+    import tempfile
+    repo = os.environ.get('FBV_REPO', '/repo')
+    fd, out = tempfile.mkstemp(prefix='fbv_rec_', suffix='.ndjson', dir=runner_scratch())
+    os.close(fd)
+    try:
+        env = dict(os.environ, FBV_RECORD_OUT=out, PYTHONDONTWRITEBYTECODE='1', PYTHONPATH=runner.VERIF + ':' + repo)
+        py = '/venv/bin/python' if os.path.exists('/venv/bin/python') else sys.executable
+        p = subprocess.run([py, '-m', 'pytest', '-q', '-p', 'harness.recorder', '-p', 'no:cacheprovider',
+                            '-x', '--timeout=900', os.path.join(repo, 'file_builder', 'test')], cwd=repo, env=env,
+                           stdout=subprocess.PIPE, stderr=subprocess.STDOUT, text=True, timeout=1200)
+        traces, unj = [], []
+        if os.path.exists(out):
+            with open(out) as f:
+                for line in f:
+                    t = json.loads(line)
+                    t['id'] = 'repotest-%s-%s' % (tag, t['id'])
+                    if t.get('unjudged'):
+                        unj.append((t['id'], t['unjudged']))
+                    elif t['events']:
+                        traces.append(t)
+        info = {'pytest_tail': p.stdout.strip().splitlines()[-1:] if p.stdout else [], 'judged': len(traces),
+                'unjudged': unj}
+        return traces, info
+    finally:
+        try:
+            os.remove(out)
+        except OSError:
+            pass
+
+
+def runner_scratch():
+    from .sandbox import scratch_root
+    return scratch_root()
+
+
 def run_property(pid, tier, seed, scale=1.0):
     """Scenario units (random / structured / regress), fault-injection variants, schedule variants and
     the design-level TLC jobs of one property, all validated against the contract."""
@@ -398,7 +443,19 @@ def run_property(pid, tier, seed, scale=1.0):
     CH = 6000
     for i in range(0, len(scs), CH):
         outs.append(runner.judge(pid, scs[i:i + CH], set(P['owned']), P['nontrivial'], tlc))
-    return _finish(pid, tier, seed, t0, outs, dstats, P['rule'], assume)
+    extra_cov = None
+    if P.get('repotests'):
+        try:
+            rt, info = repo_test_traces(pid)
+            if not rt:
+                raise RuntimeError('the recorder produced no trace: %s' % info)
+            outs.append(runner.judge_traces(pid, rt, set(P['owned']), tlc))
+            extra_cov = {'repository_test_suite_traces': info}
+        except Exception as x:      # noqa
+            o = runner.Outcome()
+            o.machinery = [('repotests', repr(x)[:1500])]
+            outs.append(o)
+    return _finish(pid, tier, seed, t0, outs, dstats, P['rule'], assume, extra_cov)
 
 
 def replay(pid, path):
